@@ -168,20 +168,20 @@ type Assign struct {
 
 // Member is one audience member.
 type Member struct {
-	Name       string
-	CondKind   string // none throughout mood sig t comp other
-	Cond       *Expr  // nil for none / throughout
-	CondMood   string
-	CondVar    [2]string
-	CondK      int64
-	Assigns    []Assign
-	Modality   string
-	Expect     *Expr
+	Name     string
+	CondKind string // none throughout mood sig t comp other
+	Cond     *Expr  // nil for none / throughout
+	CondMood string
+	CondVar  [2]string
+	CondK    int64
+	Assigns  []Assign
+	Modality string
+	Expect   *Expr
 	// ExpKind "sig": the predicate is `[ExpVar] > ExpK` (ExpGt) or `[ExpVar] < ExpK`
-	ExpKind string
-	ExpVar  [2]string
-	ExpK    int64
-	ExpGt   bool
+	ExpKind    string
+	ExpVar     [2]string
+	ExpK       int64
+	ExpGt      bool
 	WatchSigs  [][2]string
 	WatchVars  []string
 	FoulBad    string // "", ignore, foul upon, require
@@ -191,9 +191,9 @@ type Member struct {
 
 // Config is a generated configuration.
 type Config struct {
-	Actors   []string
-	Members  []*Member
-	Interp   []string // interpretation clauses of the last section, in order
+	Actors  []string
+	Members []*Member
+	Interp  []string // interpretation clauses of the last section, in order
 	// InterpSplit members are declared in a first audience section, followed
 	// by an interpretation section Interp1; the other members and Interp follow.
 	InterpSplit int
@@ -205,8 +205,8 @@ type Config struct {
 	// the audience section (so it precedes the others in the audience order)
 	// although its auditing clauses come later.
 	EarlyMention string
-	VarTypes map[string]Typ
-	VarOrder []string
+	VarTypes     map[string]Typ
+	VarOrder     []string
 }
 
 // Gen holds generator settings.
@@ -227,6 +227,8 @@ type Gen struct {
 	SimpleExpect float64
 	// conditions without variables (`2 == 2`, `1 == 2`)
 	ConstConds bool
+	// samples whose time stamps go backwards
+	LateStamps bool
 }
 
 func (g *Gen) pick(xs []string) string { return xs[g.R.Intn(len(xs))] }
@@ -735,6 +737,14 @@ func (g *Gen) History(c *Config, maxLen int) []Event {
 			continue
 		}
 		ev := Event{Kind: "sig", TsHalf: ts}
+		if g.LateStamps && g.R.Intn(6) == 0 {
+			// a sample that carries an older time stamp than the events before it (a line stamped by
+			// the monitored program itself, or one queued behind a mood change)
+			ev.TsHalf = ts - int64(1+g.R.Intn(3))
+			if ev.TsHalf < 0 {
+				ev.TsHalf = 0
+			}
+		}
 		for _, a := range c.Actors {
 			if g.R.Intn(3) != 0 {
 				k := a + " s"
